@@ -20,9 +20,9 @@ TABLE = [
     ('SUM.binding', '=SUM(A1:A2,B1:B2,900001)', f'self._sum(self._only_numeric_list(self._flatten_list([{A}, {B}, 900001])))',
      'every area and scalar argument reaches the fold once, in order'),
     ('SUM.rectangle', '=SUM(A1:B2)', f'self._sum(self._only_numeric_list(self._flatten_list([{AB}])))', ''),
-    ('AVERAGE.binding', '=AVERAGE(A1:B2,900001)', f'self._average(self._flatten_list([{AB}, 900001]))', ''),
+    ('AVERAGE.binding', '=AVERAGE(A1:B2,900001)', f'self._average(self._only_numeric_list(self._flatten_list([{AB}, 900001])))', ''),
     ('MIN.binding', '=MIN(A1:A2,B1:B2)', f'self._min(self._flatten_list([{A}, {B}]))', ''),
-    ('MAX.binding', '=MAX(A1:A2,B1:B2,900001,900002)', f'self._max(self._flatten_list([{A}, {B}, 900001, 900002]))',
+    ('MAX.binding', '=MAX(A1:A2,B1:B2,900001,900002)', f'self._max(self._only_numeric_list(self._flatten_list([{A}, {B}, 900001, 900002])))',
      'all arguments, not only the first few'),
     ('COUNT.binding', '=COUNT(A1:A2,B1:B2)', f'self._count([{A}, {B}], ANY, ANY)', 'several areas'),
     ('COUNTBLANK.binding', '=COUNTBLANK(A1:B2)', f'self._count_blank(self._flatten_list([{AB}]))', ''),
